@@ -68,8 +68,10 @@ Section Scan.
   Definition set_ret w b := {| cs := cs w; sel := sel w; bits := bits w; parent := parent w; scripts := scripts w; handed := handed w;
     nparents := nparents w; finished := finished w; dropped := dropped w; gone := gone w; g_out := g_out w; g_fired := g_fired w;
     g_polled := g_polled w; g_lastpend := g_lastpend w; g_bad16 := g_bad16 w; g_retpend := b; g_quiet := true; tr := tr w |}.
+  (* a poll that returns before it registers the caller's waker (the pre-loop exit): a new poll has begun, so the "woken since the poll began"
+     ghost is reset like in begin_poll, but the stored parent waker stays the old one *)
   Definition set_np w np := {| cs := cs w; sel := sel w; bits := bits w; parent := parent w; scripts := scripts w; handed := handed w;
-    nparents := np; finished := finished w; dropped := dropped w; gone := gone w; g_out := g_out w; g_fired := g_fired w;
+    nparents := np; finished := finished w; dropped := dropped w; gone := gone w; g_out := false; g_fired := g_fired w;
     g_polled := g_polled w; g_lastpend := g_lastpend w; g_bad16 := g_bad16 w; g_retpend := g_retpend w; g_quiet := g_quiet w; tr := tr w |}.
   Definition emit w es := {| cs := cs w; sel := sel w; bits := bits w; parent := parent w; scripts := scripts w; handed := handed w;
     nparents := nparents w; finished := finished w; dropped := dropped w; gone := gone w; g_out := g_out w; g_fired := g_fired w;
@@ -1146,7 +1148,7 @@ Section Scan.
     Hypothesis U_finish : forall s t, U s t ->
         match snd (finish s) with Some o => T (fst (finish s)) (t ++ [EEndR o]) | None => T (fst (finish s)) (t ++ [EEndP]) end.
     Hypothesis T_pre : forall s t o, T s t -> pre_exit s = Some o -> T s (t ++ [EEndR o]).
-    Hypothesis T_endp : forall s t, pre_exit s = None -> T s t -> T s (t ++ [EEndP]).
+    Hypothesis T_endp : forall s t, pre_exit s = None -> pre_any s = true -> T s t -> T s (t ++ [EEndP]).
     Hypothesis U_endp : any_per_iter = true -> forall s t, U s t -> T s (t ++ [EEndP]).
     Hypothesis T_Q : forall s t, T s t -> Q s.
     Hypothesis U_Q : forall s t, U s t -> Q s.
@@ -1243,8 +1245,8 @@ Section Scan.
       set (w0 := begin_poll w pid np).
       assert (HT0 : TL w0).
       { split; [exact Hd|]. unfold w0. cbn. rewrite strip_app. cbn. rewrite app_nil_r. exact HT. }
-      destruct (pre_any (cs w0) && negb (any_ready w0)).
-      { intros _. cbn. rewrite !strip_app. cbn. rewrite app_nil_r. apply T_endp; [exact Epre|exact HT]. }
+      destruct (pre_any (cs w0) && negb (any_ready w0)) eqn:Epa.
+      { apply andb_true_iff in Epa as [Epa _]. intros _. cbn. rewrite !strip_app. cbn. rewrite app_nil_r. apply T_endp; [exact Epre|exact Epa|exact HT]. }
       destruct (order (cs w0)) as [[is s1]|] eqn:Eo; [|apply Hunw].
       assert (HT1 : UL (set_cs w0 s1)) by (split; [exact Hd|]; cbn; eapply T_order; eauto; apply HT0).
       assert (Hin : forall i, In i is -> i < N (set_cs w0 s1)).
@@ -2160,6 +2162,7 @@ Section Scan.
     Qed.
   End FireTotal.
 
+
   Definition Sig w i := aw w i = true /\ polled w i = true /\ fired w i = true.
 
   Theorem C01_generic w0 ops i : Inv w0 -> let w := run_ops w0 ops in
@@ -2182,5 +2185,429 @@ Section Scan.
   Theorem C20_generic w0 ops i : Inv w0 -> let w := run_ops w0 ops in
     g_retpend w = true -> g_quiet w = true -> i < N w -> aw w i = true -> polled w i = true.
   Proof. intros HI w Hr Hq Hi Ha. destruct (Inv_run ops w0 HI) as (_ & _ & HA). apply (HA Hr Hq); auto. Qed.
+
+  (* ------------- the wake-up bookkeeping is a function of the observable trace -------------
+     The ghost fields of the world (g_fired, g_polled, g_lastpend, g_out, g_bad16, g_retpend, g_quiet) and the handle table are recomputed here
+     from the trace alone by a fold [gfold]; [R] relates a world to the fold of its own trace and holds in every reachable state (selective
+     strategy).  So C01 / C16 / C20, proved over the ghosts, are statements about the trace - the object that is compared with the crate. *)
+  Section GhostTrace.
+    Definition fupd (f: nat -> bool) (i: nat) (b: bool) : nat -> bool := fun j => if j =? i then b else f j.
+    Record gt := { t_handed : list (list wk); t_fired : nat -> bool; t_lp : nat -> bool; t_polled : nat -> bool;
+                   t_cur : nat; t_out : bool; t_bad : bool; t_ret : bool; t_quiet : bool }.
+    Definition gstep (g: gt) (e: ev) : gt :=
+      match e with
+      | EB _ => {| t_handed := t_handed g; t_fired := t_fired g; t_lp := t_lp g; t_polled := t_polled g; t_cur := t_cur g; t_out := false; t_bad := t_bad g; t_ret := t_ret g; t_quiet := t_quiet g |}
+      | EW _ => {| t_handed := t_handed g; t_fired := t_fired g; t_lp := t_lp g; t_polled := t_polled g; t_cur := t_cur g; t_out := true; t_bad := t_bad g; t_ret := t_ret g; t_quiet := t_quiet g |}
+      | EC m (WSub i) =>
+          {| t_handed := upd (t_handed g) m (nth m (t_handed g) [] ++ [WSub i]); t_fired := fupd (t_fired g) i false; t_lp := t_lp g;
+             t_polled := fupd (t_polled g) i true; t_cur := i; t_out := t_out g;
+             t_bad := t_bad g || (t_polled g i && t_lp g i && negb (t_fired g i)); t_ret := t_ret g; t_quiet := t_quiet g |}
+      | EC m (WPar p) =>
+          {| t_handed := upd (t_handed g) m (nth m (t_handed g) [] ++ [WPar p]); t_fired := t_fired g; t_lp := t_lp g; t_polled := t_polled g;
+             t_cur := t_cur g; t_out := t_out g; t_bad := t_bad g; t_ret := t_ret g; t_quiet := t_quiet g |}
+      | EAns a => {| t_handed := t_handed g; t_fired := t_fired g; t_lp := fupd (t_lp g) (t_cur g) (is_pend a); t_polled := t_polled g; t_cur := t_cur g;
+                     t_out := t_out g; t_bad := t_bad g; t_ret := t_ret g; t_quiet := t_quiet g |}
+      | EF c k => match nth_error (nth c (t_handed g) []) k with
+                  | Some (WSub i) => {| t_handed := t_handed g; t_fired := fupd (t_fired g) i true; t_lp := t_lp g; t_polled := t_polled g; t_cur := t_cur g;
+                                        t_out := t_out g; t_bad := t_bad g; t_ret := t_ret g; t_quiet := t_quiet g |}
+                  | _ => g
+                  end
+      | EK k => {| t_handed := t_handed g ++ [[]]; t_fired := fupd (t_fired g) k false; t_lp := fupd (t_lp g) k false; t_polled := fupd (t_polled g) k false;
+                   t_cur := t_cur g; t_out := t_out g; t_bad := t_bad g; t_ret := t_ret g; t_quiet := false |}
+      | EEndP => {| t_handed := t_handed g; t_fired := t_fired g; t_lp := t_lp g; t_polled := t_polled g; t_cur := t_cur g; t_out := t_out g; t_bad := t_bad g; t_ret := true; t_quiet := true |}
+      | EEndR _ | EEndX => {| t_handed := t_handed g; t_fired := t_fired g; t_lp := t_lp g; t_polled := t_polled g; t_cur := t_cur g; t_out := t_out g; t_bad := t_bad g; t_ret := false; t_quiet := true |}
+      | _ => g
+      end.
+    Definition gfold (g: gt) (t: list ev) : gt := fold_left gstep t g.
+    Lemma gfold_app g a b : gfold g (a ++ b) = gfold (gfold g a) b. Proof. apply fold_left_app. Qed.
+    (* events that do not touch the bookkeeping: what handlers, destructors and queries emit *)
+    Definition neutral (e: ev) : bool := match e with EDc _ | EV _ | ED | EN _ | EBool _ | EO => true | _ => false end.
+    Lemma gfold_neutral g t : forallb neutral t = true -> gfold g t = g.
+    Proof.
+      unfold gfold. revert g. induction t as [|e t IH]; intros g H; cbn [fold_left forallb] in *; auto. apply andb_true_iff in H as [He Ht].
+      assert (E : gstep g e = g) by (destruct e; try discriminate; reflexivity). rewrite E. apply IH. exact Ht.
+    Qed.
+
+    Variable rall_inst : bool.      (* does this instance ever re-arm everything (zip)?  Such an instance never vacates a slot. *)
+    Hypothesis handle_neutral : forall s i a, forallb neutral (snd (handle s i a)) = true.
+    Hypothesis drop_neutral : forall s, forallb neutral (drop_all s) = true.
+    Hypothesis norall : rall_inst = false -> forall s i a s' o e, handle s i a = (s', Stop RAll o, e) -> False.
+
+    Definition issub (h: wk) : Prop := match h with WSub _ => True | WPar _ => False end.
+    Definition Rlp (w: world) (g: gt) (i: nat) : Prop :=
+      lastpend w i = t_lp g i \/ (aw w i = false /\ lastpend w i = false /\ rall_inst = false).
+    (* ex = Some (i, b): inside the poll of the child in slot i, whose answer (pending: b) the model has already recorded and the trace not yet *)
+    Record R (ex: option (nat * bool)) (w: world) (g: gt) : Prop := {
+      R_handed : handed w = t_handed g;
+      R_sub : Forall (Forall issub) (handed w);
+      R_fired : forall i, fired w i = t_fired g i;
+      R_polled : forall i, polled w i = t_polled g i;
+      R_lp : forall j, match ex with Some (i, b) => if j =? i then lastpend w i = b /\ t_cur g = i else Rlp w g j | None => Rlp w g j end;
+      R_out : g_out w = t_out g; R_bad : g_bad16 w = t_bad g; R_ret : g_retpend w = t_ret g; R_quiet : g_quiet w = t_quiet g }.
+
+    (* one transformation of the world: the trace grows by some events and R follows the fold over them *)
+    Definition Step ex (w w': world) : Prop := forall g, R ex w g -> exists es, tr w' = tr w ++ es /\ R ex w' (gfold g es).
+    Lemma Step_refl ex w : Step ex w w.
+    Proof. intros g H. exists []. rewrite app_nil_r. auto. Qed.
+    Lemma Step_trans ex w1 w2 w3 : Step ex w1 w2 -> Step ex w2 w3 -> Step ex w1 w3.
+    Proof.
+      intros A B g H. destruct (A g H) as (e1 & E1 & H1). destruct (B _ H1) as (e2 & E2 & H2).
+      exists (e1 ++ e2). rewrite E2, E1, <- app_assoc, gfold_app. auto.
+    Qed.
+    Lemma nth_upd_f (l: list bool) j b i : j < length l -> nth i (upd l j b) false = fupd (fun x => nth x l false) j b i.
+    Proof.
+      intros Hj. unfold fupd. destruct (Nat.eqb_spec i j) as [->|Hne]; [apply nth_upd_same; auto|apply nth_upd_other; auto].
+    Qed.
+    (* R only looks at these fields of the world *)
+    Lemma R_ext ex w w' g : handed w' = handed w -> g_fired w' = g_fired w -> g_polled w' = g_polled w -> g_lastpend w' = g_lastpend w ->
+      cs w' = cs w -> g_out w' = g_out w -> g_bad16 w' = g_bad16 w -> g_retpend w' = g_retpend w -> g_quiet w' = g_quiet w -> R ex w g -> R ex w' g.
+    Proof.
+      intros E1 E2 E3 E4 E5 E6 E7 E8 E9 [A A' B C D E F G H]. constructor; try congruence.
+      - intros i. unfold fired. rewrite E2. apply B.
+      - intros i. unfold polled. rewrite E3. apply C.
+      - intros i. specialize (D i). unfold Rlp, lastpend, aw in *. rewrite E4, E5. exact D.
+    Qed.
+    Lemma Step_emit_neutral ex w es : forallb neutral es = true -> Step ex w (emit w es).
+    Proof. intros Hn g H. exists es. split; [reflexivity|]. rewrite gfold_neutral by exact Hn. apply (R_ext ex w); auto. Qed.
+    Lemma Step_flags ex w f d gn : Step ex w (set_flags w f d gn).
+    Proof. intros g H. exists []. rewrite app_nil_r. split; [reflexivity|]. apply (R_ext ex w); auto. Qed.
+    Lemma Step_bits ex w b : Step ex w (set_bits w b).
+    Proof. intros g H. exists []. rewrite app_nil_r. split; [reflexivity|]. apply (R_ext ex w); auto. Qed.
+    (* a sub-waker fires *)
+    Lemma Step_do_fire ex w c k j : nth_error (nth c (handed w) []) k = Some (WSub j) -> j < N w -> length (g_fired w) = N w -> parent w <> None ->
+      Step ex w (do_fire (emit w [EF c k]) j).
+    Proof.
+      intros Hh Hj Hwf Hp g [A A' B C D E F G H].
+      assert (Hgs : gstep g (EF c k) = {| t_handed := t_handed g; t_fired := fupd (t_fired g) j true; t_lp := t_lp g; t_polled := t_polled g; t_cur := t_cur g;
+                                          t_out := t_out g; t_bad := t_bad g; t_ret := t_ret g; t_quiet := t_quiet g |}) by (cbn; rewrite <- A, Hh; reflexivity).
+      assert (Hlen : j < length (g_fired w)) by (rewrite Hwf; exact Hj).
+      assert (EN : N (emit w [EF c k]) = N w) by reflexivity.
+      unfold do_fire. rewrite EN. apply Nat.ltb_lt in Hj. rewrite Hj. cbn [bits emit parent].
+      destruct (nth j (bits w) true).
+      - exists [EF c k]. split; [reflexivity|]. cbn [gfold fold_left]. rewrite Hgs. constructor; cbn; auto.
+        intros i. unfold fired. cbn. rewrite nth_upd_f by exact Hlen. unfold fupd. destruct (i =? j); auto. apply B.
+      - destruct (parent w) as [p|] eqn:Ep; [|contradiction]. exists [EF c k; EW p]. split; [cbn; rewrite <- app_assoc; reflexivity|].
+        cbn [gfold fold_left]. rewrite Hgs. constructor; cbn; auto.
+        intros i. unfold fired. cbn. rewrite nth_upd_f by exact Hlen. unfold fupd. destruct (i =? j); auto. apply B.
+    Qed.
+    (* premises the fire lemmas need, and that firing preserves *)
+    Definition Pre (w: world) : Prop := length (g_fired w) = N w /\ FT w /\ parent w <> None.
+    Lemma Pre_fire_handle w c k : Pre w -> Pre (fire_handle w c k).
+    Proof.
+      intros (L & F & P). destruct (fire_handle_X w c k) as (A & B & C). split; [|split].
+      - unfold N. rewrite A. fold (N w). rewrite <- L. unfold fire_handle. destruct (nth_error _ k) as [[slot|pid]|]; auto.
+        unfold do_fire. cbn [N cs emit]. destruct (slot <? _); auto. cbn [bits emit]. destruct (nth slot (bits w) true); cbn; auto; apply upd_length.
+      - apply (FT_frame w); auto; [unfold N; rewrite A; lia|rewrite C; auto].
+      - rewrite C. exact P.
+    Qed.
+    Lemma Step_fire_handle ex w c k : Pre w -> Step ex w (fire_handle w c k).
+    Proof.
+      intros (L & F & P) g HR. unfold fire_handle. destruct (nth_error (nth c (handed w) []) k) as [[slot|pid]|] eqn:E.
+      - assert (Hin : In (WSub slot) (nth c (handed w) [])) by (eapply nth_error_In; eauto).
+        assert (Hc : Forall (okh (N w)) (nth c (handed w) [])) by (apply Forall_nth_d'; [exact (proj1 F)|constructor]).
+        rewrite Forall_forall in Hc. specialize (Hc _ Hin). cbn in Hc.
+        apply (Step_do_fire ex w c k slot E Hc L P g HR).
+      - exfalso. assert (Hin : In (WPar pid) (nth c (handed w) [])) by (eapply nth_error_In; eauto).
+        assert (Hc : Forall issub (nth c (handed w) [])) by (apply Forall_nth_d'; [exact (R_sub _ _ _ HR)|constructor]).
+        rewrite Forall_forall in Hc. exact (Hc _ Hin).
+      - apply Step_refl. exact HR.
+    Qed.
+    Lemma Step_fires_of ex me hs : forall w, Pre w -> Step ex w (fires_of w me hs) /\ Pre (fires_of w me hs).
+    Proof.
+      induction hs as [|h r IH]; intros w HP; cbn [fires_of]; [split; [apply Step_refl|exact HP]|].
+      destruct (match h with HSelf => (me, length (nth me (handed w) []) - 1) | HOf c k => (c, k) end) as [c k].
+      destruct (IH (fire_handle w c k) (Pre_fire_handle w c k HP)) as [A B]. split; [|exact B].
+      eapply Step_trans; [apply Step_fire_handle; exact HP|exact A].
+    Qed.
+    Definition vres_gt (w: world) (g: gt) (r: vres) : Prop :=
+      match r with VCont w' | VPending w' | VReady w' _ | VAbort w' => exists es, tr w' = tr w ++ es /\ R None w' (gfold g es) end.
+    (* changing the combinator state after the poll of slot i: the Rlp clauses survive *)
+    Lemma R_set_cs w g s' : R None w g -> (forall j, aw w j = false -> Rlp w g j -> lastpend w j <> t_lp g j -> awaited s' j = false) ->
+      R None (set_cs w s') g.
+    Proof.
+      intros [A A' B C D E F G H] Hk. constructor; auto.
+      intros j. specialize (D j). cbn [R_lp] in *. unfold Rlp in *. destruct D as [D|(D1 & D2 & D3)]; [left; exact D|].
+      destruct (Bool.bool_dec (lastpend w j) (t_lp g j)) as [Eq|Ne]; [left; exact Eq|].
+      right. split; [|split].
+      - unfold aw. cbn [cs set_cs]. apply Hk; [exact D1|right; auto|exact Ne].
+      - exact D2.
+      - exact D3.
+    Qed.
+    Lemma poll_child_gt w i pid : sel w = true -> i < N w -> wf w -> Q (cs w) -> aw w i = true -> FT w -> parent w <> None ->
+      forall g, R None w g -> vres_gt w g (poll_child w i pid).
+    Proof.
+      intros Hs Hi Hwf HQ Haw HF Hp g HR. unfold poll_child. rewrite Hs.
+      destruct (pop w (member (cs w) i)) as [stp sc'].
+      set (m := member (cs w) i). set (a := answer stp).
+      set (bad := nth i (g_polled w) false && nth i (g_lastpend w) false && negb (nth i (g_fired w) false)).
+      set (w0 := set_oracle w sc' (upd (handed w) m (nth m (handed w) [] ++ [WSub i]))).
+      set (w1 := emit (enter_child w0 i (bits w0) (is_pend a) bad) [EC m (WSub i)]).
+      pose proof HR as [A A' B C D E F G H].
+      assert (Li : forall l : list bool, length l = N w -> i < length l) by (intros l El; rewrite El; exact Hi).
+      (* (1) the child is entered *)
+      assert (R1 : R (Some (i, is_pend a)) w1 (gstep g (EC m (WSub i)))).
+      { constructor; cbn.
+        - rewrite A. reflexivity.
+        - apply Forall_upd'; auto. apply Forall_app. split; [apply Forall_nth_d'; auto; constructor|constructor; [exact I|constructor]].
+        - intros j. unfold fired. cbn. rewrite nth_upd_f by (apply Li, Hwf). unfold fupd. destruct (j =? i); auto. apply B.
+        - intros j. unfold polled. cbn. rewrite nth_upd_f by (apply Li, Hwf). unfold fupd. destruct (j =? i); auto. apply C.
+        - intros j. destruct (Nat.eqb_spec j i) as [->|Hne].
+          + split; [|reflexivity]. unfold lastpend. cbn. apply nth_upd_same. apply Li, Hwf.
+          + specialize (D j). cbn in D. unfold Rlp, lastpend, aw in *. cbn. rewrite nth_upd_other by auto. exact D.
+        - exact E.
+        - rewrite F. f_equal. unfold bad. specialize (B i). specialize (C i). specialize (D i). cbn in D. unfold fired, polled in *. rewrite B, C.
+          destruct D as [D|(D1 & _)]; [unfold lastpend in D; rewrite D; reflexivity|congruence].
+        - exact G.
+        - exact H. }
+      (* (2) the wakers the child fires while it is being polled *)
+      assert (P1 : Pre w1).
+      { split; [|split].
+        - cbn. rewrite upd_length. apply Hwf.
+        - destruct HF as [F1 F2]. split; cbn.
+          + apply Forall_upd'; auto. apply Forall_app. split; [apply Forall_nth_d'; auto; constructor|constructor; [exact Hi|constructor]].
+          + intros X. contradiction.
+        - exact Hp. }
+      destruct (Step_fires_of (Some (i, is_pend a)) m (fires stp) w1 P1) as [S2 P2].
+      destruct (S2 _ R1) as (e2 & E2 & R2).
+      set (w2 := fires_of w1 m (fires stp)) in *.
+      assert (Ecs2 : cs w2 = cs w) by (unfold w2; rewrite (proj1 (fires_of_X w1 m (fires stp))); reflexivity).
+      (* (3) the answer closes the window *)
+      set (g2 := gfold (gstep g (EC m (WSub i))) e2) in *.
+      assert (R3 : R None (emit w2 [EAns a]) (gstep g2 (EAns a))).
+      { destruct R2 as [A2 A2' B2 C2 D2 E2' F2 G2 H2]. pose proof (D2 i) as Di. cbn in Di. rewrite Nat.eqb_refl in Di. destruct Di as [Dl Dc].
+        constructor; cbn; auto.
+        intros j. specialize (D2 j). cbn in D2. unfold Rlp, lastpend, aw in *. cbn. rewrite Dc. unfold fupd. destruct (Nat.eqb_spec j i) as [Ej|Hne].
+        - left. rewrite Ej. exact Dl.
+        - exact D2. }
+      (* (4) what the handler does *)
+      destruct (handle (cs w2) i a) as [[s' ac] eh] eqn:Eh.
+      assert (Hn : forallb neutral eh = true) by (pose proof (handle_neutral (cs w2) i a) as X; rewrite Eh in X; exact X).
+      assert (Hsl : slots s' = slots (cs w2)) by (pose proof (handle_slots (cs w2) i a) as X; rewrite Eh in X; exact X).
+      set (w3 := emit w2 (EAns a :: eh)).
+      assert (R4 : R None w3 (gfold g2 (EAns a :: eh))).
+      { change (EAns a :: eh) with ([EAns a] ++ eh). rewrite gfold_app. cbn [gfold fold_left].
+        change (fold_left gstep eh (gstep g2 (EAns a))) with (gfold (gstep g2 (EAns a)) eh). rewrite gfold_neutral by exact Hn.
+        eapply R_ext; [| | | | | | | | |exact R3]; reflexivity. }
+      assert (Etr : tr w3 = tr w ++ (EC m (WSub i) :: e2 ++ EAns a :: eh)).
+      { unfold w3. cbn [tr emit]. rewrite E2. unfold w1. cbn [tr emit enter_child set_oracle]. rewrite <- !app_assoc. reflexivity. }
+      assert (Eg : gfold g (EC m (WSub i) :: e2 ++ EAns a :: eh) = gfold g2 (EAns a :: eh)).
+      { change (EC m (WSub i) :: e2 ++ EAns a :: eh) with ([EC m (WSub i)] ++ e2 ++ EAns a :: eh). rewrite !gfold_app. reflexivity. }
+      assert (Haw2 : awaited (cs w2) i = true) by (rewrite Ecs2; exact Haw).
+      assert (HQ2 : Q (cs w2)) by (rewrite Ecs2; exact HQ).
+      assert (Hlp3 : forall j, aw w3 j = false -> j <> i).
+      { intros j Hj ->. unfold aw, w3 in Hj. cbn in Hj. rewrite Ecs2 in Hj. unfold aw in Haw. congruence. }
+      destruct ac as [|r o|]; cbn [vres_gt].
+      - exists (EC m (WSub i) :: e2 ++ EAns a :: eh). split; [exact Etr|]. rewrite Eg. apply R_set_cs; [exact R4|].
+        intros j Hj _ _. pose proof (handle_cont_other _ _ _ _ _ Eh j (Hlp3 j Hj)) as X. rewrite X. unfold aw, w3 in Hj. cbn in Hj. exact Hj.
+      - exists (EC m (WSub i) :: e2 ++ EAns a :: eh). split; [unfold apply_rearm; destruct (sel (set_cs w3 s')); [destruct r|]; exact Etr|]. rewrite Eg.
+        assert (R5 : R None (set_cs w3 s') (gfold g2 (EAns a :: eh))).
+        { apply R_set_cs; [exact R4|]. intros j Hj [X|(_ & _ & Hr)] Hne; [contradiction|].
+          destruct r.
+          - rewrite (handle_stop_other _ _ _ _ _ _ _ HQ2 Haw2 Eh ltac:(discriminate) j (Hlp3 j Hj)). unfold aw, w3 in Hj. cbn in Hj. exact Hj.
+          - rewrite (handle_stop_other _ _ _ _ _ _ _ HQ2 Haw2 Eh ltac:(discriminate) j (Hlp3 j Hj)). unfold aw, w3 in Hj. cbn in Hj. exact Hj.
+          - exfalso. eapply norall; eauto. }
+        unfold apply_rearm. destruct (sel (set_cs w3 s')); [destruct r|]; try exact R5; (eapply R_ext; [| | | | | | | | |exact R5]; reflexivity).
+      - exists (EC m (WSub i) :: e2 ++ EAns a :: eh). split; [exact Etr|]. rewrite Eg. exact R4.
+    Qed.
+    Lemma K_clear w i : K w -> K (fst (clear_bit w i)) \/ True. Proof. auto. Qed.
+    (* the loop: visit, scan *)
+    Lemma visit_gt vis w i pid n : i < N w -> J vis w -> FTp n w -> forall g, R None w g -> vres_gt w g (visit w i pid).
+    Proof.
+      intros Hi HJ (HF & Hp & Hn) g HR. unfold visit.
+      assert (HK : K w) by apply HJ. destruct HK as (Hwf & HQ & _). assert (Hs : sel w = true) by apply Hwf.
+      assert (Hsame : vres_gt w g (VCont w)) by (exists []; rewrite app_nil_r; auto).
+      destruct (any_per_iter && negb (any_ready w)); [exists []; rewrite app_nil_r; auto|].
+      assert (Hcl : forall w1 was, clear_bit w i = (w1, was) -> was = true -> aw w i = true -> vres_gt w g (poll_child w1 i pid)).
+      { intros w1 was Ec Ew Ha. unfold clear_bit in Ec. rewrite Hs in Ec. destruct (nth i (bits w) false); [|inversion Ec; subst; discriminate].
+        inversion Ec; subst w1. clear Ec.
+        assert (X : vres_gt (set_bits w (upd (bits w) i false)) g (poll_child (set_bits w (upd (bits w) i false)) i pid)).
+        { apply poll_child_gt; [exact Hs|exact Hi| |exact HQ|exact Ha| |exact Hp|].
+          - destruct Hwf. constructor; cbn; auto. rewrite upd_length. auto.
+          - apply (FT_frame w); auto.
+          - eapply R_ext; [| | | | | | | | |exact HR]; reflexivity. }
+        destruct (poll_child (set_bits w (upd (bits w) i false)) i pid); exact X. }
+      assert (Hnc : forall w1 was, clear_bit w i = (w1, was) -> vres_gt w g (VCont w1)).
+      { intros w1 was Ec. unfold clear_bit in Ec. rewrite Hs in Ec. destruct (nth i (bits w) false); inversion Ec; subst; [|exact Hsame].
+        exists []. rewrite app_nil_r. split; [reflexivity|]. eapply R_ext; [| | | | | | | | |exact HR]; reflexivity. }
+      destruct clear_first.
+      - destruct (clear_bit w i) as [w1 was] eqn:Ec. destruct was; [|exact Hsame].
+        destruct (awaited (cs w) i) eqn:Ea; [eapply Hcl; eauto|eapply Hnc; eauto].
+      - destruct (awaited (cs w) i) eqn:Ea; [|exact Hsame].
+        destruct (clear_bit w i) as [w1 was] eqn:Ec. destruct was; [eapply Hcl; eauto|exact Hsame].
+    Qed.
+    Lemma vres_gt_trans w g r : forall w1 es, tr w1 = tr w ++ es -> vres_gt w1 (gfold g es) r -> vres_gt w g r.
+    Proof.
+      intros w1 es E H. destruct r as [w'|w'|w' o|w']; cbn in *; destruct H as (e2 & E2 & H2); exists (es ++ e2); rewrite E2, E, <- app_assoc, gfold_app; auto.
+    Qed.
+    Lemma scan_gt n is : forall vis w pid, (forall i, In i is -> i < N w) -> J vis w -> FTp n w -> forall g, R None w g -> vres_gt w g (scan w is pid).
+    Proof.
+      induction is as [|i rest IH]; intros vis w pid Hin HJ HF g HR; cbn [scan]; [exists []; rewrite app_nil_r; auto|].
+      assert (Hi : i < N w) by (apply Hin; left; reflexivity).
+      pose proof (visit_gt vis w i pid n Hi HJ HF g HR) as Hv.
+      pose proof (visit_J vis w i pid Hi HJ) as HJ'.
+      assert (Hsel : sel w = true) by apply HJ.
+      assert (Hin' : i < n) by (destruct HF as (_ & _ & <-); exact Hi).
+      destruct (visit_FT n w i pid Hsel Hin' HF) as [HF' _].
+      destruct (visit w i pid) as [w'|w'|w' o|w']; cbn [post vres_FT] in *; try exact Hv.
+      destruct Hv as (es & Ees & Res). destruct HJ' as (HJ1 & HN1 & _).
+      apply (vres_gt_trans w g _ w' es Ees). apply (IH (i :: vis)); auto.
+      intros k Hk. rewrite HN1. apply Hin. right. exact Hk.
+    Qed.
+    (* the ends of a poll *)
+    Lemma R_endp w g : R None w g -> R None (set_ret (emit w [EEndP]) true) (gstep g EEndP).
+    Proof. intros [A A' B C D E F G H]. constructor; cbn; auto. Qed.
+    Lemma R_endr w g o : R None w g -> R None (set_ret (emit w [EEndR o]) false) (gstep g (EEndR o)).
+    Proof. intros [A A' B C D E F G H]. constructor; cbn; auto. Qed.
+    Lemma R_mark_final w g o : R None w g -> R None (mark_final w o) g.
+    Proof. intros H. unfold mark_final. destruct (final o); [eapply R_ext; [| | | | | | | | |exact H]; reflexivity|exact H]. Qed.
+    Lemma R_unwind w g : R None w g -> R None (unwind w) (gfold g (ED :: drop_all (cs w) ++ [EEndX])).
+    Proof.
+      intros [A A' B C D E F G H]. change (ED :: drop_all (cs w) ++ [EEndX]) with ((ED :: drop_all (cs w)) ++ [EEndX]). rewrite gfold_app.
+      rewrite (gfold_neutral g (ED :: drop_all (cs w))) by (cbn; apply drop_neutral). constructor; cbn; auto.
+    Qed.
+    Lemma R_begin w g pid np : R None w g -> R None (begin_poll w pid np) (gstep g (EB pid)).
+    Proof. intros [A A' B C D E F G H]. constructor; cbn; auto. Qed.
+    Lemma R_cs_same w g s' : R None w g -> (forall i, awaited s' i = awaited (cs w) i) -> R None (set_cs w s') g.
+    Proof. intros H Ha. apply R_set_cs; auto. intros j Hj _ _. rewrite Ha. exact Hj. Qed.
+
+    Theorem poll_gt w pid np : Inv w -> FT w -> forall g, R None w g -> exists es, tr (poll w pid np) = tr w ++ es /\ R None (poll w pid np) (gfold g es).
+    Proof.
+      intros (HK & _ & _) HF g HR. unfold poll.
+      destruct (pre_exit (cs w)) as [o|].
+      { exists [EB pid; EEndR o]. split; [unfold mark_final; destruct (final o); reflexivity|]. apply R_mark_final.
+        cbn [gfold fold_left]. destruct HR as [A A' B C D E F G H]. constructor; cbn; auto. }
+      set (w0 := begin_poll w pid np).
+      assert (HK0 : K w0) by (dK HK; unf; cbn; split; [constructor; auto|]; repeat split; auto).
+      assert (HR0 : R None w0 (gstep g (EB pid))) by (apply R_begin; exact HR).
+      assert (HF0 : FTp (N w) w0) by (split; [split; [exact (proj1 HF)|cbn; discriminate]|split; [cbn; discriminate|reflexivity]]).
+      assert (Etr0 : tr w0 = tr w ++ [EB pid]) by reflexivity.
+      destruct (pre_any (cs w0) && negb (any_ready w0)).
+      { exists [EB pid; EEndP]. split; [cbn; rewrite <- app_assoc; reflexivity|]. cbn [gfold fold_left]. apply R_endp. exact HR0. }
+      destruct (order (cs w0)) as [[is s1]|] eqn:Eo.
+      2:{ exists (EB pid :: ED :: drop_all (cs w0) ++ [EEndX]). split; [cbn; rewrite <- app_assoc; reflexivity|].
+          change (EB pid :: ED :: drop_all (cs w0) ++ [EEndX]) with ([EB pid] ++ (ED :: drop_all (cs w0) ++ [EEndX])). rewrite gfold_app. apply R_unwind. exact HR0. }
+      assert (HQ0 : Q (cs w0)) by apply HK0.
+      assert (Hs1 : slots s1 = N w0) by (eapply order_slots; eauto).
+      assert (Ha1 : forall i, awaited s1 i = awaited (cs w0) i) by (eapply order_aw; eauto).
+      assert (HQ1 : Q s1) by (eapply Q_order; eauto).
+      assert (HJ0 : J [] (set_cs w0 s1)) by (split; [apply K_cs; auto|]; split; intros i []).
+      assert (Hin : forall i, In i is -> i < N (set_cs w0 s1)).
+      { intros i Hi. unfold N; cbn. rewrite Hs1. apply (order_bound (cs w0) is s1 HQ0 Eo i Hi). }
+      assert (HR1 : R None (set_cs w0 s1) (gstep g (EB pid))) by (apply R_cs_same; auto).
+      assert (HF1 : FTp (N w) (set_cs w0 s1)).
+      { destruct HF0 as (F & P & Hn). split; [|split; [exact P|unfold N; cbn [cs set_cs]; rewrite Hs1; exact Hn]].
+        apply (FT_frame w0); auto. unfold N; cbn [cs set_cs]. rewrite Hs1. unfold N. lia. }
+      pose proof (scan_J [] (set_cs w0 s1) is pid Hin HJ0) as Hsc.
+      pose proof (scan_gt (N w) is [] (set_cs w0 s1) pid Hin HJ0 HF1 _ HR1) as Hg.
+      destruct (scan (set_cs w0 s1) is pid) as [w1|w1|w1 o|w1]; cbn [vres_gt] in Hg; destruct Hg as (es & Ees & Res).
+      - destruct Hsc as ((HK1 & _) & _). assert (HQw1 : Q (cs w1)) by apply HK1.
+        pose proof (finish_aw (cs w1)) as Hfa. destruct (finish (cs w1)) as [s2 [x|]]; cbn [fst] in Hfa.
+        + exists (EB pid :: es ++ [EEndR x]). split; [unfold mark_final; destruct (final x); cbn; rewrite Ees; cbn; rewrite <- !app_assoc; reflexivity|].
+          apply R_mark_final. change (EB pid :: es ++ [EEndR x]) with ([EB pid] ++ es ++ [EEndR x]). rewrite !gfold_app. cbn [gfold fold_left].
+          apply R_endr. apply R_cs_same; auto.
+        + exists (EB pid :: es ++ [EEndP]). split; [cbn; rewrite Ees; cbn; rewrite <- !app_assoc; reflexivity|].
+          change (EB pid :: es ++ [EEndP]) with ([EB pid] ++ es ++ [EEndP]). rewrite !gfold_app. cbn [gfold fold_left].
+          apply R_endp. apply R_cs_same; auto.
+      - exists (EB pid :: es ++ [EEndP]). split; [cbn; rewrite Ees; cbn; rewrite <- !app_assoc; reflexivity|].
+        change (EB pid :: es ++ [EEndP]) with ([EB pid] ++ es ++ [EEndP]). rewrite !gfold_app. cbn [gfold fold_left]. apply R_endp. exact Res.
+      - destruct Hsc as (HK1 & _). assert (HQw1 : Q (cs w1)) by apply HK1.
+        exists (EB pid :: es ++ [EEndR o]). split; [unfold mark_final; destruct (final o); cbn; rewrite Ees; cbn; rewrite <- !app_assoc; reflexivity|].
+        apply R_mark_final. change (EB pid :: es ++ [EEndR o]) with ([EB pid] ++ es ++ [EEndR o]). rewrite !gfold_app. cbn [gfold fold_left].
+        apply R_endr. apply R_cs_same; [exact Res|]. intros i. apply after_aw. exact HQw1.
+      - exists (EB pid :: es ++ ED :: drop_all (cs w1) ++ [EEndX]). split; [cbn; rewrite Ees; cbn; rewrite <- !app_assoc; reflexivity|].
+        change (EB pid :: es ++ ED :: drop_all (cs w1) ++ [EEndX]) with ([EB pid] ++ es ++ (ED :: drop_all (cs w1) ++ [EEndX])). rewrite !gfold_app.
+        apply R_unwind. exact Res.
+    Qed.
+    Hypothesis mutate_FT' : forall w m a sc, Inv w -> FT w -> FT (mutate w m a sc).
+    Hypothesis mutate_gt : forall w m a sc g, Inv w -> FT w -> R None w g ->
+      exists es, tr (mutate w m a sc) = tr w ++ es /\ R None (mutate w m a sc) (gfold g es).
+    Lemma step_gt w o : Inv w -> FT w -> forall g, R None w g -> exists es, tr (step_op w o) = tr w ++ es /\ R None (step_op w o) (gfold g es).
+    Proof.
+      intros HI HF g HR. assert (Hsame : exists es, tr w = tr w ++ es /\ R None w (gfold g es)) by (exists []; rewrite app_nil_r; auto).
+      destruct o as [| |c k| |m a sc]; cbn [step_op].
+      - destruct (finished w || dropped w); [exact Hsame|apply poll_gt; auto].
+      - destruct (finished w || dropped w); [exact Hsame|apply poll_gt; auto].
+      - assert (HR1 : R None (emit w [EO]) g) by (eapply R_ext; [| | | | | | | | |exact HR]; reflexivity).
+        destruct (parent w) as [p|] eqn:Ep.
+        + assert (HP : Pre (emit w [EO])).
+          { split; [|split; [|cbn; rewrite Ep; discriminate]]; [apply HI|apply (FT_frame w); auto]. }
+          destruct (Step_fire_handle None (emit w [EO]) c k HP g HR1) as (es & Ees & Res).
+          exists (EO :: es). split; [rewrite Ees; cbn; rewrite <- app_assoc; reflexivity|]. exact Res.
+        + assert (Hn : nth_error (nth c (handed w) []) k = None).
+          { destruct HF as [_ F2]. specialize (F2 Ep). assert (X : nth c (handed w) [] = []) by (apply (Forall_nth_d' (fun l => l = [])); auto).
+            rewrite X. destruct k; reflexivity. }
+          exists [EO]. split; [unfold fire_handle; cbn [handed emit]; rewrite Hn; reflexivity|].
+          unfold fire_handle. cbn [handed emit]. rewrite Hn. exact HR1.
+      - destruct (dropped w).
+        + exists [ED]. split; [reflexivity|]. eapply R_ext; [| | | | | | | | |exact HR]; reflexivity.
+        + exists (ED :: drop_all (cs w)). split; [reflexivity|]. rewrite gfold_neutral by (cbn; apply drop_neutral).
+          eapply R_ext; [| | | | | | | | |exact HR]; reflexivity.
+      - destruct (dropped w); [exact Hsame|apply mutate_gt; auto].
+    Qed.
+    Lemma FT_step w o : Inv w -> FT w -> FT (step_op w o).
+    Proof. intros HI HF. exact (FT_run mutate_FT' [o] w HI HF). Qed.
+    (* in every reachable state the bookkeeping of the world is the fold of its own trace *)
+    Theorem run_gt ops : forall w g, Inv w -> FT w -> R None w g -> exists es, tr (run_ops w ops) = tr w ++ es /\ R None (run_ops w ops) (gfold g es).
+    Proof.
+      induction ops as [|o r IH]; intros w g HI HF HR; cbn [run_ops fold_left]; [exists []; rewrite app_nil_r; auto|].
+      destruct (step_gt w o HI HF g HR) as (e1 & E1 & R1).
+      destruct (IH (step_op w o) _ (Inv_step w o HI) (FT_step w o HI HF) R1) as (e2 & E2 & R2).
+      exists (e1 ++ e2). unfold run_ops in *. rewrite E2, E1, <- app_assoc, gfold_app. auto.
+    Qed.
+    Theorem ghost_is_trace w0 ops g0 : Inv w0 -> FT w0 -> R None w0 g0 -> tr w0 = [] ->
+      R None (run_ops w0 ops) (gfold g0 (tr (run_ops w0 ops))).
+    Proof. intros HI HF HR E. destruct (run_gt ops w0 g0 HI HF HR) as (es & Ees & Res). rewrite Ees, E. exact Res. Qed.
+    (* C16 as a statement about the trace alone: the monitor never fires *)
+    Theorem C16_trace w0 ops g0 : Inv w0 -> FT w0 -> R None w0 g0 -> tr w0 = [] -> t_bad (gfold g0 (tr (run_ops w0 ops))) = false.
+    Proof. intros HI HF HR E. rewrite <- (R_bad _ _ _ (ghost_is_trace w0 ops g0 HI HF HR E)). apply C16_generic. exact HI. Qed.
+    (* C01 / C20 with the wake-up bookkeeping read off the trace (which slots are still awaited is the model's state) *)
+    Theorem C01_trace w0 ops g0 i : Inv w0 -> FT w0 -> R None w0 g0 -> tr w0 = [] -> let w := run_ops w0 ops in let g := gfold g0 (tr w) in
+      t_ret g = true -> i < N w -> aw w i = true -> t_polled g i = true -> t_fired g i = true -> t_out g = true.
+    Proof.
+      intros HI HF HR E. cbv zeta. intros Hr Hi Ha Hp Hf. pose proof (ghost_is_trace w0 ops g0 HI HF HR E) as X.
+      rewrite <- (R_out _ _ _ X). apply (C01_generic w0 ops i HI); [rewrite (R_ret _ _ _ X); exact Hr|exact Hi|].
+      split; [exact Ha|]. split; [rewrite (R_polled _ _ _ X); exact Hp|rewrite (R_fired _ _ _ X); exact Hf].
+    Qed.
+    Theorem C20_trace w0 ops g0 i : Inv w0 -> FT w0 -> R None w0 g0 -> tr w0 = [] -> let w := run_ops w0 ops in let g := gfold g0 (tr w) in
+      t_ret g = true -> t_quiet g = true -> i < N w -> aw w i = true -> t_polled g i = true.
+    Proof.
+      intros HI HF HR E. cbv zeta. intros Hr Hq Hi Ha. pose proof (ghost_is_trace w0 ops g0 HI HF HR E) as X.
+      rewrite <- (R_polled _ _ _ X). apply (C20_generic w0 ops i HI); [rewrite (R_ret _ _ _ X); exact Hr|rewrite (R_quiet _ _ _ X); exact Hq|exact Hi|exact Ha].
+    Qed.
+    (* group mutations *)
+    Lemma nth_app_false (l: list bool) m i : nth i (l ++ repeat false m) false = nth i l false.
+    Proof.
+      rewrite nth_app_repeat. destruct (Nat.ltb_spec i (length l)); [reflexivity|]. rewrite nth_overflow by auto. destruct (_ <? m); reflexivity.
+    Qed.
+    Lemma R_grow w g s' m : R None w g -> (forall i, awaited s' i = awaited (cs w) i) -> R None (w_grow w s' m) g.
+    Proof.
+      intros [A A' B C D E F G H] Ha. constructor; cbn; auto.
+      - intros i. unfold fired. cbn. rewrite nth_app_false. apply B.
+      - intros i. unfold polled. cbn. rewrite nth_app_false. apply C.
+      - intros i. specialize (D i). cbn in D. unfold Rlp, lastpend, aw in *. cbn. rewrite Ha, nth_app_false. exact D.
+    Qed.
+    Lemma R_occupy w g s' k sc : R None w g -> wf w -> k < N w -> (forall i, i <> k -> awaited s' i = awaited (cs w) i) ->
+      R None (emit (w_occupy w s' k sc) [EK k]) (gstep g (EK k)).
+    Proof.
+      intros [A A' B C D E F G H] Hwf Hk Ha.
+      assert (Lk : forall l : list bool, length l = N w -> k < length l) by (intros l El; rewrite El; exact Hk).
+      constructor; cbn; auto.
+      - rewrite A. reflexivity.
+      - apply Forall_app. split; [exact A'|constructor; [constructor|constructor]].
+      - intros i. unfold fired. cbn. rewrite nth_upd_f by (apply Lk, Hwf). unfold fupd. destruct (i =? k); auto. apply B.
+      - intros i. unfold polled. cbn. rewrite nth_upd_f by (apply Lk, Hwf). unfold fupd. destruct (i =? k); auto. apply C.
+      - intros i. specialize (D i). cbn in D. unfold Rlp, lastpend, aw in *. cbn. rewrite nth_upd_f by (apply Lk, Hwf). unfold fupd.
+        destruct (Nat.eqb_spec i k) as [->|Hne]; [left; reflexivity|]. rewrite (Ha i Hne). exact D.
+    Qed.
+    Lemma R_vacate w g s' k : R None w g -> wf w -> k < N w -> rall_inst = false -> awaited s' k = false -> (forall i, i <> k -> awaited s' i = awaited (cs w) i) ->
+      R None (w_vacate w s' k) g.
+    Proof.
+      intros [A A' B C D E F G H] Hwf Hk Hr Hak Ha.
+      assert (Lk : k < length (g_lastpend w)) by (rewrite (wf_lastpend _ Hwf); exact Hk).
+      constructor; cbn; auto.
+      intros i. specialize (D i). cbn in D. unfold Rlp, lastpend, aw in *. cbn. rewrite nth_upd_f by exact Lk. unfold fupd.
+      destruct (Nat.eqb_spec i k) as [->|Hne]; [right; auto|]. rewrite (Ha i Hne). exact D.
+    Qed.
+  End GhostTrace.
 End Scan.
 
